@@ -161,6 +161,10 @@ impl Sched {
         g.steps
     }
 
+    pub fn given_up(&self) -> bool {
+        self.m.lock().unwrap().gave_up
+    }
+
     pub fn kick_off(&self) {
         self.switch(usize::MAX);
     }
@@ -217,9 +221,14 @@ pub mod shim {
             match sched {
                 Some(s) if me != usize::MAX => {
                     s.acquire(me, id);
-                    // only the baton holder runs and the scheduler granted ownership: no contention
-                    let g = self.inner.lock().unwrap_or_else(|p| p.into_inner());
-                    Ok(Guard { g: Some(g), lock: id, scheduled: true })
+                    // only the baton holder runs and the scheduler granted ownership: no contention. If the
+                    // simulation was given up (deadlock: e.g. this very thread holds the lock in another
+                    // task), the lock may still be taken: report it like a poisoned lock instead of blocking
+                    match self.inner.try_lock() {
+                        Ok(g) => Ok(Guard { g: Some(g), lock: id, scheduled: !s.given_up() }),
+                        Err(std::sync::TryLockError::Poisoned(p)) => Ok(Guard { g: Some(p.into_inner()), lock: id, scheduled: !s.given_up() }),
+                        Err(std::sync::TryLockError::WouldBlock) => Err("simulated deadlock: the lock is never released".to_string()),
+                    }
                 }
                 _ => Ok(Guard { g: Some(self.inner.lock().unwrap_or_else(|p| p.into_inner())), lock: id, scheduled: false }),
             }
